@@ -13,5 +13,5 @@ trap 'git -C /repo worktree remove --force $WT' EXIT
 git -C $WT apply $PATCH || { echo "patch does not apply"; exit 2; }
 cp /repo/VERSION $WT/src/radical/pilot/VERSION 2>/dev/null
 for P in "$@"; do
-  cd /verif && VERIF_REPO_SRC=$WT/src VERIF_REPLAYS=/dev/shm/seeded-replays VERIF_EVIDENCE=/dev/shm/seeded-evidence ./check $P --tier ${TIER:-quick} 2>&1 | grep -E "^VIOLATION|signature=|quick:|thorough:|HARNESS" | cut -c1-200 | head -12
+  cd /verif && VERIF_REPO_SRC=$WT/src VERIF_REPLAYS=/dev/shm/seeded-replays VERIF_EVIDENCE=/dev/shm/seeded-evidence ./check $P --tier ${TIER:-quick} ${SEEDS:+--seeds $SEEDS} 2>&1 | grep -E "^VIOLATION|signature=|quick:|thorough:|HARNESS" | cut -c1-200 | head -12
 done
